@@ -13,7 +13,17 @@ package drummer
 //   NH                        begin of a NodeHost block (blocks are independent, run in parallel)
 //   A <a>                     new facade object a  (NewNodehostAPI on this NodeHost)
 //   S <shard> <type>          start a single-replica shard, type 1 regular / 2 concurrent / 3 on-disk
-//   Q <a> <shard>             GetSession through facade a (own goroutine, under recover), then CloseSession
+//   SN <shard> <type>         as S, but returns at once: the shard is hosted, nothing is applied yet (NodeHostInfo says
+//                             Pending until the first entry is applied)
+//   SJ <shard> <type>         a JOINING replica (join=true, no initial members, nobody to join): hosted, never ready
+//   W <shard>                 wait until a shard started with SN answers reads
+//   Q <a> <shard>             GetSession through facade a (own goroutine, under recover), then CloseSession; for a
+//                             joining shard with a short deadline, followed by the local SyncGetSession with the same
+//                             deadline ("jerr <code> <is status> <text> <name of the local error>")
+//   G <a> <shard> <name>      obtain a session through facade a and the local session of the same kind, keep both as <name>
+//   H <name> <shard> <tracked|noop>  a hand-made session pair for <shard> (never registered anywhere)
+//   Y <a> <name> <f|l> <propose|close>  Propose / CloseSession with the kept session through the facade (f) or
+//                             SyncPropose / SyncCloseSession with the kept local session (l)
 //   P <a> <shard> <f|l> <hex> propose through the facade (f) or locally (l: nh.SyncPropose)
 //   R <a> <shard> <f|l> <hex> linearizable read through the facade (f) or locally (l: nh.SyncRead)
 //   X <a> <shard> <f|l> <op>  error-path operation with identical arguments on both paths (nodeadline pastdeadline
@@ -578,6 +588,15 @@ type vfHost struct {
 	replica map[uint64]uint64 // replica id the next start of a shard id uses (default 1)
 	keep    map[uint64]bool   // the next start of this shard id restarts the stopped replica (state is replayed)
 	ev      *vfSysListener
+	joining map[uint64]bool // shards started with join=true
+	kept    map[string]*vfKept
+}
+
+// a session obtained earlier (or made by hand), in both forms
+type vfKept struct {
+	pb    *pb.Session
+	local *client.Session
+	shard uint64
 }
 
 const vfMaxInMem = 64 * 1024
@@ -652,7 +671,10 @@ func (h *vfHost) ctx() (context.Context, context.CancelFunc) {
 	return context.WithTimeout(context.Background(), 10*time.Second)
 }
 
-func (h *vfHost) start(shard uint64, typ int) string {
+func (h *vfHost) start(shard uint64, typ int) string { return h.startMode(shard, typ, "wait") }
+
+// startMode: "wait" = until the replica answers reads, "nowait" = return at once, "join" = join=true with nobody to join
+func (h *vfHost) startMode(shard uint64, typ int, mode string) string {
 	if h.replica == nil {
 		h.replica = map[uint64]uint64{}
 		h.keep = map[uint64]bool{}
@@ -667,14 +689,18 @@ func (h *vfHost) start(shard uint64, typ int) string {
 		SnapshotEntries: 0, MaxInMemLogSize: vfMaxInMem,
 	}
 	members := map[uint64]dragonboat.Target{rid: h.nh.RaftAddress()}
+	join := mode == "join"
+	if join {
+		members = map[uint64]dragonboat.Target{}
+	}
 	var err error
 	switch typ {
 	case 1:
-		err = h.nh.StartReplica(members, false, func(uint64, uint64) sm.IStateMachine { return &vfRegSM{} }, cfg)
+		err = h.nh.StartReplica(members, join, func(uint64, uint64) sm.IStateMachine { return &vfRegSM{} }, cfg)
 	case 2:
-		err = h.nh.StartConcurrentReplica(members, false, func(uint64, uint64) sm.IConcurrentStateMachine { return &vfConcSM{} }, cfg)
+		err = h.nh.StartConcurrentReplica(members, join, func(uint64, uint64) sm.IConcurrentStateMachine { return &vfConcSM{} }, cfg)
 	case 3:
-		err = h.nh.StartOnDiskReplica(members, false, func(uint64, uint64) sm.IOnDiskStateMachine { return &vfDiskSM{} }, cfg)
+		err = h.nh.StartOnDiskReplica(members, join, func(uint64, uint64) sm.IOnDiskStateMachine { return &vfDiskSM{} }, cfg)
 	default:
 		return "badtype"
 	}
@@ -687,6 +713,37 @@ func (h *vfHost) start(shard uint64, typ int) string {
 	}
 	h.keep[shard] = false
 	h.started = append(h.started, shard)
+	if mode != "wait" {
+		if join {
+			if h.joining == nil {
+				h.joining = map[uint64]bool{}
+			}
+			h.joining[shard] = true
+		}
+		rep, pending := h.reported(shard)
+		return fmt.Sprintf("ok %d %d %d", rep, rid, pending)
+	}
+	return h.waitReady(shard, rid)
+}
+
+// reported: what the NodeHost itself says about the shard (state machine type, Pending flag); -1 = not listed
+func (h *vfHost) reported(shard uint64) (int, int) {
+	rep, pending := -1, 0
+	if nhi := h.nh.GetNodeHostInfo(dragonboat.DefaultNodeHostInfoOption); nhi != nil {
+		for _, ci := range nhi.ShardInfoList {
+			if ci.ShardID == shard {
+				rep = int(ci.StateMachineType)
+				if ci.Pending {
+					pending = 1
+				}
+			}
+		}
+	}
+	return rep, pending
+}
+
+func (h *vfHost) waitReady(shard uint64, rid uint64) string {
+	var err error
 	// wait until the single replica has elected itself (infrastructure, not under test)
 	deadline := time.Now().Add(20 * time.Second)
 	for {
